@@ -62,7 +62,9 @@ COLLIDING = [
     'grammar y;\nNUM = /[0-9]+/;\nWORD = $IDENT;\nBAD = /[z-a]/;\nstart = NUM missing;\n',
     'grammar z;\nBAD = /[z-a]/;\nDUP = "d";\nDUP = "e";\nstart = BAD DUP missing;\n',
 ]
-PATTERNS = ["[a-z]+", "(ab|cd)*e", "[^0-9]", "\\d{2,3}", "[[:alpha:]_]\\w*", "(", "a{3,1}", "a{4,2})", "[z-a", "(b{2,1}", "[a-c]+x", "\\p{Nope}x)"]
+PATTERNS = ["[a-z]+", "(ab|cd)*e", "[^0-9]", "\\d{2,3}", "[[:alpha:]_]\\w*", "(", "a{3,1}", "a{4,2})", "[z-a", "(b{2,1}", "[a-c]+x", "\\p{Nope}x)",
+            # every shared class table in both polarities (a later pattern must not see what an earlier one did to a table)
+            "\\s+", "a\\S*", "\\D\\d", "\\W+\\w", "[^\\s]x", "[\\s\\d]", "\\p{Greek}+", "\\P{Greek}", "[[:space:]]+", "[^[:digit:]]", "[[:^alpha:]]", "."]
 
 CASES_V = """(* GENERATED: hashStrings of the implementation vs the FNV-1 model of Emerge/Shared.v *)
 From Coq Require Import List Bool NArith.
@@ -211,6 +213,9 @@ def check(tier):
     for o in orders:
         po = list(PATTERNS)
         rng.shuffle(po)
+        po2 = list(PATTERNS)                  # every pattern a second time, after all the others have run once
+        rng.shuffle(po2)
+        po = po + po2
         sreqs.append({"op": "sequence", "texts": [specs[i] for i in o] + [specs[o[0]]], "patterns": po})
     sres = C.hook_map(sreqs, timeout_each=120)
     seq_bad = []
